@@ -103,6 +103,7 @@ def _array(pts, dim, layout, ndim=2):
     return arr
 
 
+MODEL_ONLY_PLANTS = ('numtype',)
 NAME_MANDATORY = ['TEXT', 'NUM', 'CODE', 'DATETIME', 'DATE', 'TIME', 'UIDREF', 'PNAME']   # PS3.3 C.17.3 Table C.17-5
 ERR = {'IndexError': 'index', 'ValueError': 'value', 'TypeError': 'type', 'RuntimeError': 'runtime',
        'KeyError': 'key', 'AttributeError': 'attribute'}
@@ -381,6 +382,113 @@ def gen_item(r, depth=0, vt=None, bad=None, need_rel=False):
     return d
 
 
+
+# ----------------------------------------------------------------------------------------------
+# round 2: ARGUMENT SPELLINGS.  Every value can be handed to the constructors in several equivalent ways (enum member /
+# its string, list / tuple / ndarray, scalar / one-item sequence, Python / numpy / pydicom value types, optional
+# argument omitted / given as None ...).  `decorate` draws one spelling per argument from its OWN stream and stores it
+# under d['sp'] (absent = the plain spelling of round 1); it also plants the round-2 forbidden features.
+
+SEQ_SPELLINGS = ['list', 'list', 'tuple', 'ndarray', 'list-np']
+NUM_BAD_TYPES = ['npInt64', 'npInt32', 'npFloat32', 'decimal', 'str']
+ENUM_OF = {'rel': 'RelationshipTypeValues', 'gt': 'GraphicTypeValues', 'gt3d': 'GraphicTypeValues3D',
+           'range': 'TemporalRangeTypeValues', 'origin': 'PixelOriginInterpretationValues'}
+
+
+def decorate(r, d, top=True, plant=None):
+    """Draw the spellings of the arguments of `d` (and of its descendants).  `plant`: a round-2 forbidden feature to put
+    into this (so far admissible) item."""
+    a, vt = d['args'], d['vt']
+    sp = d['sp'] = {}
+    sp['rel'] = r.choice(['str', 'str', 'member']) if d['rel'] in RELS else 'str'
+    sp['omit_none'] = r.random() < 0.5                      # optional arguments that are None: left out / passed as None
+    sp['uid'] = r.choice(['str', 'str', 'UID', 'pydicom-UID'])
+    if vt == 'PNAME':
+        sp['value'] = r.choice(['str', 'PersonName'])
+    elif vt in ('DATE', 'TIME', 'DATETIME'):
+        sp['value'] = r.choice(['python', 'python', 'valuerep', 'str'])
+    elif vt == 'NUM':
+        if a['float']:
+            sp['value'] = r.choice(['pyFloat', 'pyFloat', 'npFloat64'])
+        else:
+            sp['value'] = 'pyBool' if a['value'] in (0, 1) and r.random() < 0.5 else 'pyInt'
+        if plant == 'numtype':
+            sp['value'] = r.choice(NUM_BAD_TYPES)
+            if sp['value'] in ('npInt64', 'npInt32') and (a['float'] or abs(a['value']) >= 2 ** 31):
+                a['value'], a['float'] = r.randint(-1000, 1000), False
+            d['bad'] = 'numtype'
+    elif vt == 'CONTAINER':
+        sp['continuous'] = 'omitted' if a['continuous'] and r.random() < 0.5 else r.choice(['bool', 'bool', 'int'])
+        sp['template'] = 'int' if a['template'] and r.random() < 0.3 else 'str'
+    elif vt == 'IMAGE':
+        for k in ('frames', 'segments'):
+            v = a[k]
+            if v is None:
+                continue
+            if isinstance(v, int):
+                sp[k] = r.choice(['scalar', 'scalar-np'])
+            else:
+                sp[k] = r.choice(SEQ_SPELLINGS + (['scalar', 'scalar-np'] if len(v) == 1 and r.random() < 0.3 else []))
+        if plant == 'empty':
+            k = r.choice(['frames', 'segments'])
+            a[k] = []
+            sp[k] = r.choice(['list', 'tuple', 'ndarray'])
+            d['bad'] = 'empty'
+    elif vt == 'WAVEFORM':
+        if a['channels'] is not None:
+            sp['channels'] = r.choice(['list-of-tuples', 'list-of-tuples', 'list-of-lists', 'tuple-of-tuples', 'ndarray'])
+        if plant == 'empty':
+            a['channels'] = []
+            sp['channels'] = r.choice(['list-of-tuples', 'tuple-of-tuples'])
+            d['bad'] = 'empty'
+        elif plant == 'nonpair':
+            ch = [[r.randint(1, 9), r.randint(1, 40)] for _ in range(r.choice([1, 2, 3]))]
+            k = r.randrange(len(ch))
+            ch[k] = ch[k][:1] if r.random() < 0.4 else ch[k] + [r.randint(1, 40)]
+            if r.random() < 0.3 and len(ch) >= 2:
+                # an even total: two triples look like three pairs once flattened
+                ch = [c[:2] + [r.randint(1, 40)] for c in ch[:2]]
+            a['channels'] = ch
+            sp['channels'] = r.choice(['list-of-tuples', 'list-of-lists'])
+            d['bad'] = 'nonpair'
+    elif vt in ('SCOORD', 'SCOORD3D'):
+        sp['gt'] = r.choice(['str', 'str', 'member'])
+        sp['origin'] = r.choice(['str', 'member'])
+        if plant == 'enum-member':
+            sp['gt'] = 'other-enum-member'          # the member of the OTHER graphic type enumeration with the same value
+            if a['gt'] not in ('POINT', 'ELLIPSE', 'MULTIPOINT', 'POLYLINE'):
+                plant = None
+                sp['gt'] = 'str'
+            else:
+                d['bad'] = 'enum'
+    elif vt == 'TCOORD':
+        sp['range'] = r.choice(['str', 'str', 'member'])
+        sp['values'] = r.choice(['list', 'list', 'tuple', 'ndarray', 'list-np'])
+        sp['datetime'] = r.choice(['python', 'python', 'valuerep', 'str'])
+        given = [k for k in ('positions', 'offsets', 'datetimes') if a.get(k) is not None]
+        if given and r.random() < 0.2:
+            # a LATER argument is given as well (the constructor documents no precedence; the first in the signature is kept)
+            order = ['positions', 'offsets', 'datetimes']
+            later = order[order.index(given[0]) + 1:]
+            if later:
+                k = r.choice(later)
+                a[k] = [1.5, 2.25] if k == 'offsets' else [[2001, 2, 3, 4, 5, 6, 0, None]]
+                sp['also'] = k
+        if plant == 'empty' and given:
+            first = given[0]
+            a[first] = []
+            d['bad'] = 'empty'
+    if plant == 'enum-member' and vt not in ('SCOORD', 'SCOORD3D') and d['rel'] in RELS and d['bad'] is None:
+        sp['rel'] = 'other-enum-member'
+        d['rel_member_of'] = r.choice(['ValueTypeValues', 'GraphicTypeValues'])
+        d['bad'] = 'enum'
+    for c in d['children']:
+        decorate(r, c, False)
+
+
+PLANT2_FOR = {'IMAGE': ['empty'], 'WAVEFORM': ['empty', 'nonpair', 'nonpair'], 'TCOORD': ['empty'], 'NUM': ['numtype'],
+              'SCOORD': ['enum-member'], 'SCOORD3D': ['enum-member']}
+
 BAD_FOR = {'SCOORD': ['count', 'dim', 'enum', 'ndim'], 'SCOORD3D': ['count', 'open', 'noncoplanar', 'enum', 'dim', 'ndim'],
            'TCOORD': ['none', 'enum']}
 
@@ -396,6 +504,15 @@ def gen_case(ctx, idx):
     else:
         vt = VTS[idx % len(VTS)]
     d = gen_item(r, 0, vt, bad)
+    r2 = ctx.rng('spell', idx)
+    plant = None
+    if bad is None and not d['children']:
+        x = r2.random()
+        if vt in PLANT2_FOR and x < 0.25:
+            plant = r2.choice(PLANT2_FOR[vt])
+        elif d['rel'] in RELS and x < 0.04:
+            plant = 'enum-member'
+    decorate(r2, d, True, plant)
     return {'idx': idx, 'item': d}
 
 
@@ -416,55 +533,176 @@ def _mk_dt(v):
     return datetime.datetime(v[0], v[1], v[2], v[3], v[4], v[5], v[6], tzinfo=tz)
 
 
+def _enum_member(enum_name, value):
+    import highdicom.sr.enum as E
+    return getattr(E, enum_name)(value)
+
+
+def _spell_enum(value, how, enum_name, other=None):
+    """an enumerated argument as its string or as the member; `other-enum-member`: a member of ANOTHER enumeration"""
+    import highdicom.sr.enum as E
+    if value is None or how == 'str':
+        return value
+    if how == 'member':
+        try:
+            return getattr(E, enum_name)(value)
+        except ValueError:
+            return value                     # a value outside the enumeration has no member: the string is passed
+    if how == 'other-enum-member':
+        en = getattr(E, other)
+        try:
+            return en(value)
+        except ValueError:
+            return list(en)[0]
+    raise RuntimeError(how)
+
+
+def _spell_uid(u, how):
+    if u is None or how == 'str':
+        return u
+    if how == 'UID':
+        import highdicom
+        return highdicom.UID(u)
+    from pydicom.uid import UID
+    return UID(u)
+
+
+def _spell_seq(v, how, elem=int):
+    """a list of numbers as list / tuple / ndarray / list of numpy scalars"""
+    if how == 'tuple':
+        return tuple(v)
+    if how == 'ndarray':
+        return np.array(v, dtype=np.int64 if elem is int else float)
+    if how == 'list-np':
+        return [np.int64(x) if elem is int else np.float64(x) for x in v]
+    return list(v)
+
+
+def _spell_nums(v, how):
+    """frame / segment numbers: a scalar or a sequence"""
+    if v is None:
+        return None
+    if how in ('scalar', 'scalar-np'):
+        x = v if isinstance(v, int) else v[0]
+        return np.int64(x) if how == 'scalar-np' else int(x)
+    if isinstance(v, int):
+        return v
+    return _spell_seq(v, how)
+
+
+def _spell_num(value, how):
+    if how in ('pyInt', 'pyFloat'):
+        return value
+    if how == 'pyBool':
+        return bool(value)
+    if how == 'npFloat64':
+        return np.float64(value)
+    if how == 'npInt64':
+        return np.int64(value)
+    if how == 'npInt32':
+        return np.int32(value)
+    if how == 'npFloat32':
+        return np.float32(value)
+    if how == 'decimal':
+        import decimal
+        return decimal.Decimal(repr(value))
+    if how == 'str':
+        return repr(value)
+    raise RuntimeError(how)
+
+
+def _spell_dt(v, how):
+    from pydicom.valuerep import DT
+    if how == 'valuerep':
+        return DT(_mk_dt(v))
+    if how == 'str':
+        return _dts(v)
+    return _mk_dt(v)
+
+
 def build(d):
-    """Construct the real content item for a specification (children included, through the attribute setter)."""
+    """Construct the real content item for a specification (children included, through the attribute setter), every
+    argument in the spelling drawn for it (d['sp'])."""
     import highdicom.sr as sr
+    from pydicom.valuerep import DA, TM, PersonName
     a = d['args']
+    sp = d.get('sp') or {}
     nm = _mk_code(d['name'])
-    rel = d['rel']
+    rel = _spell_enum(d['rel'], sp.get('rel', 'str'), 'RelationshipTypeValues', d.get('rel_member_of'))
+    kw = {} if (rel is None and sp.get('omit_none')) else {'relationship_type': rel}
+    uid = sp.get('uid', 'str')
     vt = d['vt']
+
+    def opt(**kws):
+        """optional arguments: None-valued ones are left out when the spelling says so"""
+        return {k: v for k, v in kws.items() if not (v is None and sp.get('omit_none'))}
     if vt == 'CODE':
-        it = sr.CodeContentItem(nm, _mk_code(a['value']), relationship_type=rel)
+        it = sr.CodeContentItem(nm, _mk_code(a['value']), **kw)
     elif vt == 'TEXT':
-        it = sr.TextContentItem(nm, a['value'], relationship_type=rel)
+        it = sr.TextContentItem(nm, a['value'], **kw)
     elif vt == 'NUM':
-        it = sr.NumContentItem(nm, a['value'], _mk_code(a['unit']),
-                               qualifier=_mk_code(a['qualifier']) if a['qualifier'] else None, relationship_type=rel)
+        it = sr.NumContentItem(nm, _spell_num(a['value'], sp.get('value', 'pyFloat' if a['float'] else 'pyInt')), _mk_code(a['unit']),
+                               **opt(qualifier=_mk_code(a['qualifier']) if a['qualifier'] else None), **kw)
     elif vt == 'PNAME':
-        it = sr.PnameContentItem(nm, a['value'], relationship_type=rel)
+        it = sr.PnameContentItem(nm, PersonName(a['value']) if sp.get('value') == 'PersonName' else a['value'], **kw)
     elif vt == 'DATE':
-        it = sr.DateContentItem(nm, datetime.date(*a['value']), relationship_type=rel)
+        v = datetime.date(*a['value'])
+        it = sr.DateContentItem(nm, {'valuerep': DA(v), 'str': _da(a['value'])}.get(sp.get('value'), v), **kw)
     elif vt == 'TIME':
-        it = sr.TimeContentItem(nm, datetime.time(*a['value']), relationship_type=rel)
+        v = datetime.time(*a['value'])
+        it = sr.TimeContentItem(nm, {'valuerep': TM(v), 'str': _tm(a['value'])}.get(sp.get('value'), v), **kw)
     elif vt == 'DATETIME':
-        it = sr.DateTimeContentItem(nm, _mk_dt(a['value']), relationship_type=rel)
+        it = sr.DateTimeContentItem(nm, _spell_dt(a['value'], sp.get('value', 'python')), **kw)
     elif vt == 'UIDREF':
-        it = sr.UIDRefContentItem(nm, a['value'], relationship_type=rel)
+        it = sr.UIDRefContentItem(nm, _spell_uid(a['value'], uid), **kw)
     elif vt == 'CONTAINER':
-        it = sr.ContainerContentItem(nm, is_content_continuous=a['continuous'], template_id=a['template'], relationship_type=rel)
+        ck = {}
+        if sp.get('continuous') != 'omitted':
+            ck['is_content_continuous'] = int(a['continuous']) if sp.get('continuous') == 'int' else a['continuous']
+        tid = int(a['template']) if a['template'] and sp.get('template') == 'int' else a['template']
+        it = sr.ContainerContentItem(nm, **ck, **opt(template_id=tid), **kw)
     elif vt == 'COMPOSITE':
-        it = sr.CompositeContentItem(nm, a['cls'], a['inst'], relationship_type=rel)
+        it = sr.CompositeContentItem(nm, _spell_uid(a['cls'], uid), _spell_uid(a['inst'], uid), **kw)
     elif vt == 'IMAGE':
-        it = sr.ImageContentItem(nm, a['cls'], a['inst'], referenced_frame_numbers=a['frames'],
-                                 referenced_segment_numbers=a['segments'], relationship_type=rel)
+        it = sr.ImageContentItem(nm, _spell_uid(a['cls'], uid), _spell_uid(a['inst'], uid),
+                                 **opt(referenced_frame_numbers=_spell_nums(a['frames'], sp.get('frames', 'list')),
+                                       referenced_segment_numbers=_spell_nums(a['segments'], sp.get('segments', 'list'))), **kw)
     elif vt == 'WAVEFORM':
         from highdicom.sr.value_types import WaveformContentItem
-        it = WaveformContentItem(nm, a['cls'], a['inst'],
-                                 referenced_waveform_channels=None if a['channels'] is None else [tuple(c) for c in a['channels']],
-                                 relationship_type=rel)
+        ch = a['channels']
+        how = sp.get('channels', 'list-of-tuples')
+        if ch is not None:
+            if how == 'list-of-lists':
+                ch = [list(c) for c in ch]
+            elif how == 'tuple-of-tuples':
+                ch = tuple(tuple(c) for c in ch)
+            elif how == 'ndarray' and ch and all(len(c) == 2 for c in ch):
+                ch = np.array(ch, dtype=np.int64)
+            else:
+                ch = [tuple(c) for c in ch]
+        it = WaveformContentItem(nm, _spell_uid(a['cls'], uid), _spell_uid(a['inst'], uid), **opt(referenced_waveform_channels=ch), **kw)
     elif vt == 'SCOORD':
         arr = _array(a['pts'], a['dim'], a.get('layout', 'C'), a.get('ndim', 2))
-        it = sr.ScoordContentItem(nm, a['gt'], arr, pixel_origin_interpretation=a['origin'], fiducial_uid=a['fiducial'],
-                                  relationship_type=rel)
+        it = sr.ScoordContentItem(nm, _spell_enum(a['gt'], sp.get('gt', 'str'), 'GraphicTypeValues', 'GraphicTypeValues3D'), arr,
+                                  **opt(pixel_origin_interpretation=_spell_enum(a['origin'], sp.get('origin', 'str'),
+                                                                                'PixelOriginInterpretationValues'),
+                                        fiducial_uid=_spell_uid(a['fiducial'], uid)), **kw)
     elif vt == 'SCOORD3D':
         arr = _array(a['pts'], a['dim'], a.get('layout', 'C'), a.get('ndim', 2))
-        it = sr.Scoord3DContentItem(nm, a['gt'], arr, frame_of_reference_uid=a['frame_of_reference'],
-                                    fiducial_uid=a['fiducial'], relationship_type=rel)
+        it = sr.Scoord3DContentItem(nm, _spell_enum(a['gt'], sp.get('gt', 'str'), 'GraphicTypeValues3D', 'GraphicTypeValues'), arr,
+                                    frame_of_reference_uid=_spell_uid(a['frame_of_reference'], uid),
+                                    **opt(fiducial_uid=_spell_uid(a['fiducial'], uid)), **kw)
     elif vt == 'TCOORD':
-        it = sr.TcoordContentItem(nm, a['range'], referenced_sample_positions=a['positions'],
-                                  referenced_time_offsets=a['offsets'],
-                                  referenced_date_time=None if a['datetimes'] is None else [_mk_dt(v) for v in a['datetimes']],
-                                  relationship_type=rel)
+        how = sp.get('values', 'list')
+        pos = None if a['positions'] is None else _spell_seq(a['positions'], how)
+        off = None if a['offsets'] is None else _spell_seq(a['offsets'], how, float)
+        dts = None
+        if a['datetimes'] is not None:
+            dts = [_spell_dt(v, sp.get('datetime', 'python')) for v in a['datetimes']]
+            if how == 'tuple':
+                dts = tuple(dts)
+        it = sr.TcoordContentItem(nm, _spell_enum(a['range'], sp.get('range', 'str'), 'TemporalRangeTypeValues'),
+                                  **opt(referenced_sample_positions=pos, referenced_time_offsets=off, referenced_date_time=dts), **kw)
     else:
         raise RuntimeError(vt)
     if d['children']:
@@ -703,9 +941,13 @@ def _fl_table(pts):
 
 
 def model_spec(d):
-    """The specification in the driver's JSON form (dates / times as the DICOM strings DA / TM / DT define)."""
+    """The specification in the driver's JSON form (dates / times as the DICOM strings DA / TM / DT define; enumerated
+    arguments by value, a member of another enumeration as a string outside every enumeration; frame / segment numbers
+    as scalar or sequence; all three TCOORD arguments; the spelling of the NUM value; `continuous` null = omitted)."""
     a = d['args']
+    sp = d.get('sp') or {}
     vt = d['vt']
+    foreign = 'MEMBER-OF-ANOTHER-ENUMERATION'
     if vt == 'CODE':
         args = {'value': _codej(a['value'])}
     elif vt in ('TEXT', 'PNAME', 'UIDREF'):
@@ -718,33 +960,39 @@ def model_spec(d):
         args = {'value': _dts(a['value'])}
     elif vt == 'NUM':
         args = {'value': _fr(a['value']), 'float': a['float'], 'unit': _codej(a['unit']), 'qualifier': _codej(a['qualifier'])}
+        if 'value' in sp:
+            args['spelling'] = sp['value']
     elif vt == 'CONTAINER':
-        args = {'continuous': a['continuous'], 'template': a['template']}
+        args = {'continuous': None if sp.get('continuous') == 'omitted' else a['continuous'], 'template': a['template']}
     elif vt == 'COMPOSITE':
         args = {'cls': a['cls'], 'inst': a['inst']}
     elif vt == 'IMAGE':
-        def lst(x):
-            return None if x is None else ([x] if isinstance(x, int) else list(x))
-        args = {'cls': a['cls'], 'inst': a['inst'], 'frames': lst(a['frames']), 'segments': lst(a['segments'])}
+        def nums(k):
+            x = a[k]
+            if x is None:
+                return None
+            if isinstance(x, int) or sp.get(k) in ('scalar', 'scalar-np'):
+                return {'scalar': x if isinstance(x, int) else x[0]}
+            return {'seq': list(x)}
+        args = {'cls': a['cls'], 'inst': a['inst'], 'frames': nums('frames'), 'segments': nums('segments')}
     elif vt == 'WAVEFORM':
         args = {'cls': a['cls'], 'inst': a['inst'], 'channels': a['channels']}
     elif vt == 'SCOORD':
-        args = {'gt': a['gt'], 'dim': a['dim'], 'pts': [[_fr(x) for x in row] for row in a['pts']], 'origin': a['origin'],
+        args = {'gt': foreign if sp.get('gt') == 'other-enum-member' else a['gt'], 'dim': a['dim'],
+                'pts': [[_fr(x) for x in row] for row in a['pts']], 'origin': a['origin'],
                 'fiducial': a['fiducial'], 'ndim': a.get('ndim', 2), 'fl': _fl_table(a['pts'])}
     elif vt == 'SCOORD3D':
-        args = {'gt': a['gt'], 'dim': a['dim'], 'pts': [[_fr(x) for x in row] for row in a['pts']],
+        args = {'gt': foreign if sp.get('gt') == 'other-enum-member' else a['gt'], 'dim': a['dim'],
+                'pts': [[_fr(x) for x in row] for row in a['pts']],
                 'frame_of_reference': a['frame_of_reference'], 'fiducial': a['fiducial'], 'ndim': a.get('ndim', 2),
                 'fl': _fl_table(a['pts'])}
     elif vt == 'TCOORD':
-        if a['positions'] is not None:
-            args = {'range': a['range'], 'kind': 'positions', 'values': list(a['positions'])}
-        elif a['offsets'] is not None:
-            args = {'range': a['range'], 'kind': 'offsets', 'values': [_fr(x) for x in a['offsets']]}
-        elif a['datetimes'] is not None:
-            args = {'range': a['range'], 'kind': 'datetimes', 'values': [_dts(v) for v in a['datetimes']]}
-        else:
-            args = {'range': a['range'], 'kind': None}
-    return {'vt': vt, 'name': _codej(d['name']), 'rel': d['rel'], 'args': args, 'children': [model_spec(c) for c in d['children']]}
+        args = {'range': a['range'],
+                'positions': None if a['positions'] is None else list(a['positions']),
+                'offsets': None if a['offsets'] is None else [_fr(x) for x in a['offsets']],
+                'datetimes': None if a['datetimes'] is None else [_dts(v) for v in a['datetimes']]}
+    rel = foreign if sp.get('rel') == 'other-enum-member' else d['rel']
+    return {'vt': vt, 'name': _codej(d['name']), 'rel': rel, 'args': args, 'children': [model_spec(c) for c in d['children']]}
 
 
 def _code_of_ds(c):
@@ -836,7 +1084,9 @@ def _strip_keys(t):
 
 
 def _parse_probe(reqs, pend, case, label, ds, how, cls_name, root, sr):
-    """Parse `ds` on the implementation and queue the same parse for the model."""
+    """Parse `ds` on the implementation and queue the same parse for the model.
+    how: 'class' (<cls_name>.from_dataset), 'sequence' (from_sequence with the flags), 'derived' (the class dispatch
+    ContentItem._from_dataset_derived)."""
     import highdicom.sr as sr_mod
     from highdicom.sr import value_types as vtm
     try:
@@ -846,6 +1096,8 @@ def _parse_probe(reqs, pend, case, label, ds, how, cls_name, root, sr):
     try:
         if how == 'class':
             back = getattr(vtm, cls_name).from_dataset(ds)
+        elif how == 'derived':
+            back = vtm.ContentItem._from_dataset_derived(ds)
         else:
             back = sr_mod.ContentSequence.from_sequence([ds], is_root=root, is_sr=sr)[0]
         impl = ('ok', class_tree(back))
@@ -853,6 +1105,101 @@ def _parse_probe(reqs, pend, case, label, ds, how, cls_name, root, sr):
         impl = ('err', _kind(e))
     reqs.append(('parse', {'ds': a, 'how': how, 'cls': cls_name, 'root': root, 'sr': sr}))
     pend.append(('parse', {'case': case, 'probe': label}, impl))
+
+
+# ----------------------------------------------------------------------------------------------
+# round 2: every parsing ENTRY POINT x source x copy flag, and what `copy=` promises
+
+SOURCES = ['memory', 'bytes-explicit', 'bytes-implicit']
+ENTRIES = ['class', 'sequence', 'derived', 'parent']
+COPIES = ['default', 'true', 'false']
+
+
+def _snapshot(ds):
+    """Everything a caller could notice about a data set it handed to a parser: the class of every data set in the
+    tree, every element with tag, VR, value (and the type of the value)."""
+    out = [type(ds).__name__]
+    for e in ds:
+        if e.VR == 'SQ':
+            out.append((int(e.tag), 'SQ', type(e.value).__name__, [_snapshot(i) for i in e.value]))
+        else:
+            out.append((int(e.tag), e.VR, type(e.value).__name__, repr(e.value)))
+    return out
+
+
+def _in_place_classes(ds):
+    """class names of the data set tree (content only)"""
+    return {'class': type(ds).__name__,
+            'children': [_in_place_classes(c) for c in ds.ContentSequence] if 'ContentSequence' in ds else []}
+
+
+def _source(it, src):
+    return plain_copy(it) if src == 'memory' else through_bytes(it, src == 'bytes-implicit')
+
+
+def _route(ctx, where, it, d, src, entry, copy, want_mem, want_file):
+    """Parse the plain data set of `it` through one (source, entry point, copy flag); check the parsed item against the
+    specification and the promise of `copy`: copy=True (the default) leaves the caller's data set untouched and returns
+    another object; copy=False converts the caller's data set itself (and its nested content) in place."""
+    import highdicom.sr as sr
+    from pydicom import Dataset
+    from highdicom.sr import value_types as vtm
+    vt = d['vt']
+    label = f'{src}/{entry}/copy-{copy}'
+    ds = _source(it, src)
+    given = ds
+    if entry == 'parent':
+        if d['rel'] is None:
+            return False
+        given = Dataset()
+        given.ValueType = 'CONTAINER'
+        given.ContinuityOfContent = 'SEPARATE'
+        given.ConceptNameCodeSequence = [plain_copy(_mk_code({'v': '121070', 's': 'DCM', 'm': 'Findings', 'ver': None}))]
+        given.ContentSequence = [ds]
+        if src != 'memory':
+            given = through_bytes(given, src == 'bytes-implicit')
+            ds = given.ContentSequence[0]
+    ck = {} if copy == 'default' else {'copy': copy == 'true'}
+    before = _snapshot(given)
+    try:
+        if entry == 'class':
+            back = getattr(vtm, CLASS[vt]).from_dataset(ds, **ck)
+            top = back
+        elif entry == 'derived':
+            if copy != 'false':
+                return False                 # the dispatch has no copy parameter: it always converts in place
+            back = vtm.ContentItem._from_dataset_derived(ds)
+            top = back
+        elif entry == 'sequence':
+            back = sr.ContentSequence.from_sequence([ds], is_root=False, is_sr=d['rel'] is not None, **ck)[0]
+            top = back
+        else:
+            top = vtm.ContainerContentItem.from_dataset(given, **ck)
+            back = top.ContentSequence[0]
+    except Exception as e:  # noqa: BLE001
+        ctx.fail(where, f'parsing back ({label}) raised {type(e).__name__}: {e}'[:300], site='parse/' + vt)
+        return True
+    try:
+        x = _diff(observe(back), want_mem if src == 'memory' else want_file)
+    except Exception as e:  # noqa: BLE001
+        x = f'accessor raised {type(e).__name__}: {e}'[:200]
+    if x:
+        ctx.fail(where, {'what': f'parsed item ({label}) differs from the original', 'first difference': x}, site='parse/' + vt)
+    in_place = copy == 'false'
+    if not in_place:
+        if _snapshot(given) != before:
+            ctx.fail(where, {'what': f'{label}: the data set handed to the parser was modified although copy=True',
+                             'before': str(before)[:300], 'after': str(_snapshot(given))[:300]}, site='copy-true-modified-input')
+        if top is given:
+            ctx.fail(where, f'{label}: the parser returned the caller\'s own data set although copy=True', site='copy-true-modified-input')
+    else:
+        want_cls = expected(d)
+        want_tree = _strip_keys(want_cls) if entry != 'parent' else {'class': 'ContainerContentItem', 'children': [_strip_keys(want_cls)]}
+        if top is not given or _in_place_classes(given) != want_tree:
+            ctx.fail(where, {'what': f'{label}: copy=False did not convert the caller\'s data set in place',
+                             'same object': top is given, 'classes': str(_in_place_classes(given))[:300]}, site='copy-false-not-in-place')
+    ctx.hist('parse_route', label)
+    return True
 
 
 def _edit_in_place(it):
@@ -938,7 +1285,9 @@ def check_item(ctx, case, reqs=None, pend=None):
             except Exception as e:  # noqa: BLE001
                 pend.append(('build', where, ('ok', None), None, None))
     # ---- oracle 1: forbidden values are rejected, admissible ones accepted
-    if bad and it is not None:
+    # (a value of a type the constructor does not take -- numpy integer, Decimal ... -- is not forbidden by the standard:
+    #  compared with the model only)
+    if bad and bad not in MODEL_ONLY_PLANTS and it is not None:
         ctx.fail(where, f'forbidden feature "{bad}" accepted by the constructor of {CLASS[vt]}', site='construct/' + bad)
     if not bad and it is None:
         ctx.fail(where, f'admissible {vt} item refused ({err})', site='construct')
@@ -972,6 +1321,21 @@ def check_item(ctx, case, reqs=None, pend=None):
                              site='parse/' + vt)
             except Exception as e:  # noqa: BLE001
                 ctx.fail(where, f'parsing back ({how}) raised {type(e).__name__}: {e}'[:300], site='parse/' + vt)
+        # ---- oracle 3b: further (source, entry point, copy flag) combinations, with what `copy=` promises
+        rr = ctx.rng('route', case['idx'])
+        combos = [(a_, b_, c_) for a_ in SOURCES for b_ in ENTRIES for c_ in COPIES]
+        rr.shuffle(combos)
+        done = 0
+        want_file = expected(d, True)
+        for src, entry, cp in combos:
+            if done >= 3:
+                break
+            try:
+                if _route(ctx, where, it, d, src, entry, cp, want, want_file):
+                    done += 1
+            except Exception as e:  # noqa: BLE001
+                ctx.fail(where, f'parsing back ({src}/{entry}/copy-{cp}) raised {type(e).__name__}: {e}'[:300], site='parse/' + vt)
+                done += 1
         # ---- oracle 4: damaged datasets are refused
         import highdicom.sr as sr
         from highdicom.sr import value_types as vtm
@@ -980,6 +1344,10 @@ def check_item(ctx, case, reqs=None, pend=None):
             sr_flag = d['rel'] is not None
             _parse_probe(reqs, pend, case, 'memory/sequence', plain_copy(it), 'sequence', CLASS[vt], False, sr_flag)
             _parse_probe(reqs, pend, case, 'memory/class', plain_copy(it), 'class', CLASS[vt], False, sr_flag)
+            _parse_probe(reqs, pend, case, 'derived/' + r.choice(SOURCES), _source(it, r.choice(SOURCES)), 'derived', CLASS[vt], False, sr_flag)
+            dsx = plain_copy(it)
+            del dsx[r.choice(REQUIRED[vt] + ['ValueType'])]
+            _parse_probe(reqs, pend, case, 'derived-damaged', dsx, 'derived', CLASS[vt], False, sr_flag)
             _parse_probe(reqs, pend, case, 'bytes/sequence', through_bytes(it, r.random() < 0.5), 'sequence', CLASS[vt], False, sr_flag)
             _parse_probe(reqs, pend, case, 'memory/sequence-as-sr', plain_copy(it), 'sequence', CLASS[vt], False, True)
             _parse_probe(reqs, pend, case, 'flags/sr-flipped', plain_copy(it), 'sequence', CLASS[vt], False, not sr_flag)
@@ -993,6 +1361,10 @@ def check_item(ctx, case, reqs=None, pend=None):
                 _parse_probe(reqs, pend, case, 'relationship-type-unknown/child', dsx, 'class', CLASS[vt], False, sr_flag)
             wrong = r.choice([v for v in VTS if v != vt])
             _parse_probe(reqs, pend, case, 'wrong-class/' + wrong, plain_copy(it), 'class', CLASS[wrong], False, True)
+            if case['idx'] % 4 == 0:
+                for w in VTS:
+                    if w not in (vt, wrong):
+                        _parse_probe(reqs, pend, case, 'wrong-class-matrix/' + w, plain_copy(it), 'class', CLASS[w], False, True)
             for attr in REQUIRED[vt] + ['ValueType', 'ConceptNameCodeSequence']:
                 dsx = plain_copy(it)
                 del dsx[attr]
@@ -1045,13 +1417,16 @@ def check_item(ctx, case, reqs=None, pend=None):
                     ctx.fail(where, f'{vt} dataset without concept name parsed ({how})', site='parse-missing-name/' + vt)
                 except Exception:  # noqa: BLE001
                     pass
-        other = r.choice([v for v in VTS if v != vt])
-        ds = plain_copy(it)
-        try:
-            getattr(vtm, CLASS[other]).from_dataset(ds)
-            ctx.fail(where, f'{CLASS[other]}.from_dataset accepted a {vt} dataset', site='parse-mismatch/' + other)
-        except Exception:  # noqa: BLE001
-            pass
+        for other in VTS:
+            if other == vt:
+                continue
+            ds = plain_copy(it) if case['idx'] % 3 else through_bytes(it, case['idx'] % 2 == 0)
+            try:
+                getattr(vtm, CLASS[other]).from_dataset(ds, copy=bool(case['idx'] % 2))
+                ctx.fail(where, f'{CLASS[other]}.from_dataset accepted a {vt} dataset', site='parse-mismatch/' + other)
+            except Exception:  # noqa: BLE001
+                pass
+            ctx.hist('refusal_matrix', f'{CLASS[other]} x {vt}')
         for label, f in (('no-value-type', lambda x: x.__delitem__('ValueType')),
                          ('unknown-value-type', lambda x: setattr(x, 'ValueType', 'FOO'))):
             ds = plain_copy(it)
@@ -1080,6 +1455,13 @@ def check_item(ctx, case, reqs=None, pend=None):
              outcome=('ok' if it is not None else 'refused:' + str(err)), planted=str(bad),
              graphic_type=(f'{vt}/{gt}/{len(a["pts"])}' if gt else None) or '-', depth=_depth(d),
              children=len(d['children']), layout=a.get('layout', '-'),
+             **{'spelling_' + k: f'{vt}/{v}' for k, v in (d.get('sp') or {}).items() if k in
+                ('rel', 'value', 'frames', 'segments', 'channels', 'values', 'datetime', 'gt', 'origin', 'range', 'continuous',
+                 'template', 'also')},
+             spelling_uid=(d.get('sp') or {}).get('uid', '-') if vt in ('UIDREF', 'COMPOSITE', 'IMAGE', 'WAVEFORM', 'SCOORD3D') else '-',
+             spelling_optional=('omitted' if (d.get('sp') or {}).get('omit_none') else 'None') if any(
+                 x is None for x in [d['rel']] + [a.get(k) for k in ('qualifier', 'template', 'frames', 'segments', 'channels',
+                                                                    'origin', 'fiducial') if k in a]) else '-',
              code_args=sum(1 for c in (d['name'], a.get('value'), a.get('unit'), a.get('qualifier')) if isinstance(c, dict) and c.get('as_code')))
     return it, err, obs
 
@@ -1104,7 +1486,7 @@ def _corpus():
 
 def run(ctx):
     import hd_env  # noqa: F401
-    cases = _corpus() + [gen_case(ctx, i) for i in range(ctx.n(450, 6000))]
+    cases = _corpus() + [gen_case(ctx, i) for i in range(ctx.n(600, 6000))]
     reqs, pend = [], []
     for case in cases:
         check_item(ctx, case, reqs, pend)
